@@ -234,8 +234,7 @@ def run(tier):
     items = [([], p) for p in probes]
     items += [([s], p) for s in steps for p in probes]
     pairs = list(itertools.product(steps, steps))
-    if not thorough:
-        pairs = rng.sample(pairs, 400)
+    pairs = rng.sample(pairs, 6000 if thorough else 400)
     for s1, s2 in pairs:
         for p in rng.sample(probes, min(len(probes), 7 if thorough else 4)):
             items.append(([s1, s2], p))
@@ -318,7 +317,7 @@ def run(tier):
         states=len(states), transitions=transitions, traces_validated_against_impl=len(results),
         explanation="histories are executed on the real code (the implementation IS the transition function); pool of 14 behaviours + 7 "
                     "failing inputs x entry points {compile_c_stmt, transform_insn, compile_insn} x two Compiler instances in one process; all histories "
-                    "of length 0 and 1, " + ("all ordered pairs of steps" if thorough else "400 seeded pairs") + " as histories of length 2 (each with " + ("7" if thorough else "4") + " seeded probes)" + (", 3000 seeded of length 3" if thorough else "")
+                    "of length 0 and 1, " + ("6000 seeded ordered pairs of steps" if thorough else "400 seeded pairs") + " as histories of length 2 (each with " + ("7" if thorough else "4") + " seeded probes)" + (", 3000 seeded of length 3" if thorough else "")
                     + ", each followed by probes compared with a fresh process; footprint step over every (input, entry point)",
         pool=POOL, conditions_confirmed=nconf, footprint_steps_clean=nfp, histories_agreeing=nhist_ok,
         functions_encoded=["Compiler.compile_c_stmt", "Compiler.transform_insn", "Compiler.compile_insn", "RZILTransformer.reset",
